@@ -48,7 +48,22 @@ type StrV struct {
 }
 
 type StructV struct{ f []Value }
-type ArrayV struct{ e []Value }
+type ArrayV struct {
+	e []Value
+	// lazily materialised all-zero scalar array (huge buffers such as network.OneConnection.sendBuf)
+	lazyN    int
+	lazyZero Value
+}
+
+func (a *ArrayV) mat() {
+	if a.e == nil && a.lazyN > 0 {
+		a.e = make([]Value, a.lazyN)
+		for i := range a.e {
+			a.e[i] = a.lazyZero
+		}
+		a.lazyN = 0
+	}
+}
 
 type IfaceV struct {
 	typ types.Type // nil => nil interface
@@ -184,6 +199,9 @@ func (r *Run) zero(t types.Type) Value {
 		return s
 	case *types.Array:
 		n := int(u.Len())
+		if n > 1<<16 && isScalarInt(u.Elem()) {
+			return &ArrayV{lazyN: n, lazyZero: r.zero(u.Elem())}
+		}
 		a := &ArrayV{e: make([]Value, n)}
 		if n > 0 {
 			if isScalarInt(u.Elem()) {
@@ -225,6 +243,9 @@ func copyVal(v Value) Value {
 		}
 		return n
 	case *ArrayV:
+		if x.e == nil && x.lazyN > 0 {
+			return &ArrayV{lazyN: x.lazyN, lazyZero: x.lazyZero}
+		}
 		n := &ArrayV{e: make([]Value, len(x.e))}
 		for i, f := range x.e {
 			n.e[i] = copyVal(f)
@@ -316,6 +337,7 @@ func navigate(root Value, path []int) Value {
 		case *StructV:
 			v = x.f[i]
 		case *ArrayV:
+			x.mat()
 			if i < 0 || i >= len(x.e) {
 				panic(fmt.Sprintf("engine: navigate index %d out of %d", i, len(x.e)))
 			}
@@ -334,6 +356,7 @@ func (r *Run) load(p *PtrV) Value {
 	o := r.robj(p.obj)
 	if p.sym != nil {
 		arr := navigate(o.val, p.path).(*ArrayV)
+		arr.mat()
 		return r.selectTerm(arr.e, p.sym, p.lo, p.n)
 	}
 	return copyVal(navigate(o.val, p.path))
@@ -346,6 +369,7 @@ func (r *Run) store(p *PtrV, v Value) {
 	o := r.wobj(p.obj)
 	if p.sym != nil {
 		arr := navigate(o.val, p.path).(*ArrayV)
+		arr.mat()
 		nv := v.(*Term)
 		for i := p.lo; i < p.lo+p.n; i++ {
 			arr.e[i] = r.ts.Ite(r.ts.Eq(p.sym, r.ts.Const(64, uint64(i))), nv, arr.e[i].(*Term))
@@ -384,10 +408,14 @@ func (s *SliceV) elemPtr(i int) *PtrV {
 }
 
 func (r *Run) sliceArr(s *SliceV) *ArrayV {
-	return navigate(r.robj(s.obj).val, s.path).(*ArrayV)
+	a := navigate(r.robj(s.obj).val, s.path).(*ArrayV)
+	a.mat()
+	return a
 }
 func (r *Run) sliceArrW(s *SliceV) *ArrayV {
-	return navigate(r.wobj(s.obj).val, s.path).(*ArrayV)
+	a := navigate(r.wobj(s.obj).val, s.path).(*ArrayV)
+	a.mat()
+	return a
 }
 
 // byte terms of a []byte slice value
